@@ -15,6 +15,9 @@ EXTENDS TraceKit
 VARIABLES l, nbad
 vars == <<l, nbad>>
 
+\* the logged components are rounded to 10^-q kWh: each may be off by half a unit of its own log
+Lk(e, a, b) == Abs(a - b) <= TolE(e) + (IF e.exact THEN 0 ELSE Len(e.comps) * Pow10(IMax(e.p - e.q, 0)))
+
 StepClauses(e, c, t) ==
   LET x(p) == V(e, T(Cr(c, p), t))
       pr == x("prod.t")  us == x("prod.epus_t")  ex == x("exp.t")
@@ -36,10 +39,10 @@ StepClauses(e, c, t) ==
      \cup (IF Eq(e, us, ISumSet(LAMBDA j : V(e, T(Cr(c, P2("prod.epus_by_src_t", j)), t)), SrcsOf(e, c))) THEN {} ELSE {"src_used_sum"})
      \cup (IF Eq(e, pr, ISumSet(LAMBDA j : V(e, T(Cr(c, P2("prod.by_src_t", j)), t)), SrcsOf(e, c))) THEN {} ELSE {"src_prod_sum"})
      \* link to the components the evaluation was given
-     \cup (IF Eq(e, ep, CompSum(e, LAMBDA y : CarrierOf(y) = c /\ IsEpbUse(y), t)) THEN {} ELSE {"input_link_epus"})
-     \cup (IF Eq(e, ne, CompSum(e, LAMBDA y : CarrierOf(y) = c /\ IsOtherUse(y), t)) THEN {} ELSE {"input_link_nepus"})
-     \cup (IF Eq(e, x("used.cgnus_t"), CompSum(e, LAMBDA y : CarrierOf(y) = c /\ IsCgnUse(y), t)) THEN {} ELSE {"input_link_cgnus"})
-     \cup (IF Eq(e, pr, CompSum(e, LAMBDA y : CarrierOf(y) = c /\ IsProd(y), t)) THEN {} ELSE {"input_link_prod"})
+     \cup (IF Lk(e, ep, CompSum(e, LAMBDA y : CarrierOf(y) = c /\ IsEpbUse(y), t)) THEN {} ELSE {"input_link_epus"})
+     \cup (IF Lk(e, ne, CompSum(e, LAMBDA y : CarrierOf(y) = c /\ IsOtherUse(y), t)) THEN {} ELSE {"input_link_nepus"})
+     \cup (IF Lk(e, x("used.cgnus_t"), CompSum(e, LAMBDA y : CarrierOf(y) = c /\ IsCgnUse(y), t)) THEN {} ELSE {"input_link_cgnus"})
+     \cup (IF Lk(e, pr, CompSum(e, LAMBDA y : CarrierOf(y) = c /\ IsProd(y), t)) THEN {} ELSE {"input_link_prod"})
 
 AnnualClauses(e, c) ==
   LET an(pa, pt) == EqN(e, V(e, Cr(c, pa)), SumSteps(e, Cr(c, pt)), e.N)
